@@ -12,14 +12,15 @@ import KrakenModel.Proof.C05Live
 
   A history is any list of actions of one process at a time on the two directories: an operation that
   completes (start / patch / commit of an upload with ANY bytes under ANY name, persist flag, metainfo
-  generation, a refresh with ANY bytes, reads, a restart) or an operation cut off after `k` of its
+  generation, a refresh with ANY bytes, the origin's metainfo request with or without a backend copy,
+  a deletion of a cached blob (TTL / forced clean-up, an eviction's victim), reads, a restart) or an operation cut off after `k` of its
   file-system calls (process crash; only a restart can follow, and the restart can be cut off too).
   Quantifiers: every history, every crash point `k`, every directory-removal order, any number of
   blobs, every write part size, memory cache on or off.
 
   Parameters (hypotheses `Params`): the digest, the metainfo generator and the sidecar decoder are
   uninterpreted; blobs with equal digests have equal metainfo, a zero-filled (or empty) sidecar does
-  not decode, a generated one does.
+  not decode, a generated one does; `SkipHashVerification` is off.
 -/
 namespace KrakenModel.Spec.C05
 open KrakenModel KrakenModel.FS KrakenModel.OriginCrash
@@ -108,12 +109,14 @@ theorem metainfo_absent_or_valid (cfg : Cfg) (hp : Params cfg) (hist : List Act)
   obtain ⟨b, hb, rfl⟩ := hv
   exact hp.miByName _ _ (hb.trans (G.1.dataOK n c hc).symm)
 
-/-- **C05 (3)** `refresh_regenerates`.  After every history, wherever the last crash happened: the process
-is restarted on the same directories (the store opens), and for ANY name `n` and bytes `b` that hash to
-it the on-demand path — `WriteBlobToCacheWithMetaInfo`, what a metainfo request for a blob without
-sidecar triggers through the refresher — succeeds; afterwards the blob is served, hashes to `n`, and
-its metainfo is served and is the blob's.  This covers names whose directory a crash left without a
-blob file (listed, not readable: they can be created again) and sidecars left empty or zero-filled. -/
+/-- **C05 (3)** `refresh_regenerates` (store level, relative to bytes handed in: see (5) and (6) for the
+request itself).  After every history, wherever the last crash happened, and a restart on the same
+directories: for ANY name `n` and bytes `b` that hash to it `WriteBlobToCacheWithMetaInfo` — what the
+refresher runs with the bytes the backend delivers — succeeds; afterwards the blob is served, hashes to
+`n`, and its metainfo is served and is the blob's.  This covers names whose directory a crash left
+without a blob file (listed, not readable: they can be created again) and sidecars left empty or
+zero-filled.  (`s.up = true` holds by construction of the model: its restart cannot fail; that the real
+`NewCAStore` opens on every crash tree is checked by the `reopen-failed` monitor, not proved.) -/
 theorem refresh_regenerates (cfg : Cfg) (hp : Params cfg) (hist : List Act) (ord ord' : Order Name) (n : String) (b : Bytes)
     (hb : cfg.digest b = n) :
     let s := (sys cfg).run (hist ++ [Act.op Op.restart ord, Act.op (Op.refresh n b) ord'])
@@ -164,6 +167,47 @@ theorem dangling_not_served (cfg : Cfg) (hp : Params cfg) (hist : List Act) (n :
     (read cfg ((sys cfg).run hist).mem ((sys cfg).run hist).fs n).res = .notFound :=
   read_dangling cfg _ _ n (invariant_after_every_history cfg hp hist).2 hd
 
+/-- **C05 (5)** `metainfo_request_serves_cached_blob`.  After every history — wherever the last crash
+happened, in particular between the upload commit and the write-back task / the metainfo write — the
+origin's metainfo request (`getMetaInfo`) for a blob that is in the cache is answered with the blob's
+metainfo: from the sidecar when it decodes, else generated from the cached blob.  No assumption on the
+backend (it may not hold the blob) nor on a pending write-back task. -/
+theorem metainfo_request_serves_cached_blob (cfg : Cfg) (hp : Params cfg) (hist : List Act) (ord : Order Name) (n : String) (c : Bytes)
+    (backend : Option Bytes) (hd : ((sys cfg).run hist).fs.file? (cacheDir n) Name.data = some c) :
+    (exec cfg ord ((sys cfg).run hist).mem ((sys cfg).run hist).fs (Op.metareq n backend)).res = .found (cfg.genMI c) := by
+  have G := invariant_after_every_history cfg hp hist
+  exact metareq_serves_cached hp ord _ _ n c backend G.1 G.2 hd
+
+/-- **C05 (6)** `metainfo_request_fetches_uncached`.  After every history and a restart: a blob that is
+not in the cache (e.g. its directory was left without the blob file) and that the backend holds is
+fetched by the request (202), after which the request is served with the blob's metainfo. -/
+theorem metainfo_request_fetches_uncached (cfg : Cfg) (hp : Params cfg) (hist : List Act) (ord ord' ord'' : Order Name) (n : String) (b : Bytes)
+    (backend' : Option Bytes) (hb : cfg.digest b = n)
+    (hd : ((sys cfg).run (hist ++ [Act.op Op.restart ord])).fs.file? (cacheDir n) Name.data = none) :
+    (exec cfg ord' ((sys cfg).run (hist ++ [Act.op Op.restart ord])).mem ((sys cfg).run (hist ++ [Act.op Op.restart ord])).fs
+      (Op.metareq n (some b))).res = .accepted ∧
+    ∃ c, cfg.digest c = n ∧
+      (exec cfg ord'' ((sys cfg).run (hist ++ [Act.op Op.restart ord, Act.op (Op.metareq n (some b)) ord'])).mem
+        ((sys cfg).run (hist ++ [Act.op Op.restart ord, Act.op (Op.metareq n (some b)) ord'])).fs (Op.metareq n backend')).res =
+        .found (cfg.genMI c) := by
+  have G := invariant_after_every_history cfg hp (hist ++ [Act.op Op.restart ord])
+  have hs : (sys cfg).run (hist ++ [Act.op Op.restart ord, Act.op (Op.metareq n (some b)) ord']) =
+      (sys cfg).runFrom ((sys cfg).run (hist ++ [Act.op Op.restart ord])) [Act.op (Op.metareq n (some b)) ord'] := by
+    rw [show hist ++ [Act.op Op.restart ord, Act.op (Op.metareq n (some b)) ord'] =
+      (hist ++ [Act.op Op.restart ord]) ++ [Act.op (Op.metareq n (some b)) ord'] by simp, Sys.run_append]
+  have hup : ((sys cfg).run (hist ++ [Act.op Op.restart ord])).up = true ∧
+      ((sys cfg).run (hist ++ [Act.op Op.restart ord])).mem.uploads = [] := by
+    rw [Sys.run_append]
+    simp [Sys.runFrom, sys, step, exec]
+  rw [hs]
+  generalize (sys cfg).run (hist ++ [Act.op Op.restart ord]) = t1 at G hup hd ⊢
+  obtain ⟨r1, c, r2, r3⟩ := metareq_fetches hp ord' ord'' t1.mem t1.fs n b backend' G.1 G.2 hd hb (by rw [hup.2]; simp)
+  have hs' : (sys cfg).runFrom t1 [Act.op (Op.metareq n (some b)) ord'] =
+      ⟨true, (metareq cfg ord' t1.mem t1.fs n (some b)).mem, applyAll t1.fs (metareq cfg ord' t1.mem t1.fs n (some b)).calls⟩ := by
+    simp [Sys.runFrom, sys, step, hup.1, exec]
+  refine ⟨by simpa [exec] using r1, c, r2, ?_⟩
+  rw [hs']; simpa [exec] using r3
+
 /-! ### non-vacuity: a concrete instance, evaluated by the kernel -/
 
 def exName : String := "ab12cd"
@@ -177,7 +221,7 @@ def exCfg (mem : Bool) : Cfg :=
     metaOK := fun t => t.head? = some 123 }
 
 theorem exParams (mem : Bool) : Params (exCfg mem) := by
-  refine ⟨?_, ?_, ?_⟩
+  refine ⟨?_, ?_, ?_, rfl⟩
   · intro a b h
     simp only [exCfg] at h ⊢
     by_cases ha : a = exBlob <;> by_cases hb : b = exBlob <;> simp_all [exName]
@@ -219,6 +263,27 @@ example : (read (exCfg true) ((sys (exCfg true)).run dangling).mem ((sys (exCfg 
 example :
     let s := (sys (exCfg true)).run (dangling ++ [.op (.refresh exName exBlob) {}])
     (read (exCfg true) s.mem s.fs exName).res = .bytes exBlob ∧ ((sys (exCfg true)).run (dangling ++ [.op (.refresh exName exBlob) {}])).fs.file? ["upload"] Name.data = none := by
+  decide
+
+/-- a crash right after the commit's rename (k = 6: mkdirs, last access time, rename), before the persist
+flag, the write-back task and the metainfo: after the restart the request generates the metainfo from
+the cached blob although the backend does not hold it -/
+def committedOnly : List Act :=
+  [.op (.ustart "u1") {}, .op (.uwrite "u1" 0 exBlob) {}, .crash (.commit "u1" exName) {} 6, .op .restart {}]
+
+example : ((sys (exCfg false)).run committedOnly).fs.file? (cacheDir exName) Name.data = some exBlob ∧
+    ((sys (exCfg false)).run committedOnly).fs.file? (cacheDir exName) Name.tmeta = none := by decide
+example : (exec (exCfg false) {} ((sys (exCfg false)).run committedOnly).mem ((sys (exCfg false)).run committedOnly).fs
+    (Op.metareq exName none)).res = .found [123, 49, 125] := by decide
+
+/-- a deletion (TTL clean-up) cut off after the blob file was unlinked, sidecar still there: the name is
+listed, not served; a set persist flag refuses the deletion -/
+example :
+    let s := (sys (exCfg false)).run ([.op (.refresh exName exBlob) {}, .crash (.delete exName) { files := [(cacheDir exName, Name.data)] } 1, .op .restart {}])
+    listNames s.fs = [exName] ∧ (read (exCfg false) s.mem s.fs exName).res = .notFound ∧
+      s.fs.file? (cacheDir exName) Name.tmeta = some [123, 49, 125] := by
+  decide
+example : (exec (exCfg false) {} ((sys (exCfg false)).run upload).mem ((sys (exCfg false)).run upload).fs (.delete exName)).res = .persisted := by
   decide
 
 /-- an upload whose bytes do not hash to the name is rejected and leaves nothing in the cache -/
